@@ -14,7 +14,7 @@ use uom::si::length::meter;
 pub fn def() -> PropDef {
     PropDef {
         id: "C14",
-        rule: "inputs: (a) point sets of 0..2000 points mixing families: uniform clouds, helical tracks through the drift volume (spacing 1-6 mm, noise 0-2 mm), exactly collinear in x-y (radial lines, chords), nearly collinear with perturbation 1e-18..1e-2 m, repeated points, equal-radius arcs, vertical lines, circles through the origin, dyadic grids, sparse staircases, points on Hough bin edges, kinked tracks (inner part exactly radial at azimuth 0 / pi/2 / pi, outer part bent), all of them optionally flattened to one z, plus exact duplicates -> cluster_spacepoints, Track::try_from on every cluster, find_vertices on the fitted tracks; (b) direct fits of one >= 13-point group of every family through the Cluster hook; (c) track sets of 0..8 hook-built tracks (helices near the axis and anywhere, circles exactly through the beam line, one track in seven written with a negative radius, pitch 0 / subnormal / 1e-17..1e2 both signs) with ties (identical tracks, equal radii, equal z of closest approach) -> find_vertices; oracle: every call returns (no panic, with and without overflow checks), fits return Ok or NoInitialParameters, returned tracks have six finite helix parameters, t_inner/t_outer in [-pi, pi] and not NaN, at(t) finite, vertex positions finite, vertex track parameters in [-pi, pi]; non-trivial = at least one cluster was formed and fitted, or find_vertices received >= 2 tracks; distinct by case hash",
+        rule: "inputs: (a) point sets of 0..2000 points mixing families: uniform clouds, helical tracks through the drift volume (spacing 1-6 mm, noise 0-2 mm), exactly collinear in x-y (radial lines, chords), nearly collinear with perturbation 1e-18..1e-2 m, repeated points, equal-radius arcs (exact, and with radii 0-3 ulps apart), vertical lines, circles through the origin, dyadic grids, sparse staircases, points on Hough bin edges, kinked tracks (inner part exactly radial at azimuth 0 / pi/2 / pi, outer part bent), all of them optionally flattened to one z, plus exact duplicates -> cluster_spacepoints, Track::try_from on every cluster, find_vertices on the fitted tracks; (b) direct fits of one >= 13-point group of every family through the Cluster hook; (c) track sets of 0..8 hook-built tracks (helices near the axis and anywhere, circles exactly through the beam line, one track in seven written with a negative radius, pitch 0 / subnormal / 1e-17..1e2 both signs) with ties (identical tracks, equal radii, equal z of closest approach) -> find_vertices; oracle: every call returns (no panic, with and without overflow checks), fits return Ok or NoInitialParameters, returned tracks have six finite helix parameters, t_inner/t_outer in [-pi, pi] and not NaN, at(t) finite, vertex positions finite, vertex track parameters in [-pi, pi]; non-trivial = at least one cluster was formed and fitted, or find_vertices received >= 2 tracks; distinct by case hash",
         assumptions: &["Cluster / Track construction and the helix reader go through reconstruction::verif_hooks; variant (a) reaches the same code through the public API only"],
         run,
         replay,
